@@ -13,7 +13,7 @@ def resource_dir():
     return subprocess.check_output(['clang++', '-print-resource-dir'], text=True).strip()
 
 def base_flags(std):
-    return ['-std=' + std, '-I' + REPO + '/include', '-UNDEBUG', '-w',
+    return ['-std=' + std, '-I' + REPO + '/include', '-UNDEBUG', '-w', '-fno-access-control',
             '-DBOOST_MSM_NONSTANDALONE_TEST', '-DBOOST_SERIALIZATION_DYN_LINK', '-DBOOST_SERIALIZATION_NO_LIB',
             '-DBOOST_UNIT_TEST_FRAMEWORK_DYN_LINK', '-DBOOST_UNIT_TEST_FRAMEWORK_NO_LIB',
             '-resource-dir', resource_dir()]
